@@ -187,7 +187,9 @@ T tdigest<T, A>::get_quantile(double rank) const {
       }
       const double w1 = weight - weight_so_far - left_weight;
       const double w2 = weight_so_far + dw - weight - right_weight;
-      return weighted_average(centroids_[i].get_mean(), w1, centroids_[i + 1].get_mean(), w2);
+      // w1 is the distance of the target from the left centroid, w2 from the right one:
+      // the closer the target is to a centroid, the more that centroid's mean counts
+      return weighted_average(centroids_[i].get_mean(), w2, centroids_[i + 1].get_mean(), w1);
     }
     weight_so_far += dw;
   }
